@@ -152,7 +152,7 @@ SECS = [None, "", "A", "[A]", "B", "[B]", "C c"]
 KEYS = ["x", "y", "z", "k4", "k5", "k6", "k7", "k8", "k9", "k10"]
 VALS = ["v", "Yes Please", "TRUE", "0x10", "1e3", "", "42", "-7", "a b  c", "tRuE", "No", "2.5", "0755", "yes", "nOnE", "  \"q r\"", "\"x\"  ",
         # texts on which a getter succeeds or fails at the edge of its range (what they leave behind must not matter later)
-        "1e-320", "1e40", "99999999999999999999999", "-1", "4294967296"]
+        "1e-320", "1e40", "99999999999999999999999", "-1", "4294967296", "\"ends in blanks  \"", "\", \""]
 BOOLW = ["1", "0", "yes", "YES", "no", "No", "true", "TRUE", "false", "fAlSe"]
 
 
